@@ -57,3 +57,40 @@ Theorem C01_parse_render_flat : forall d l,
   flat_doc d = true -> wf_doc d -> wf_layout d l -> parse (render d l) = Ok (flatten d, bom l).
 Proof. exact parse_render_flat. Qed.
 Print Assumptions C01_parse_render_flat.
+
+(* stage 2: no parameters, no mixed containers (`plain_fields`): nested objects, arrays of scalars
+   and of containers, empty containers `{}`, headers `rgb { .. }`, `key {` without `=`, all
+   operators, quoted/unquoted keys and values — EVERY layout *)
+Theorem C01_parse_render_plain : forall d l,
+  plain_fields d = true -> wf_doc d -> wf_layout d l -> parse (render d l) = Ok (flatten d, bom l).
+Proof. exact parse_render_plain. Qed.
+Print Assumptions C01_parse_render_plain.
+
+(* non-vacuity:  a={b="x y" "c"<1} l{1{3}{}} h=rgb{1}  with a comment directly after an operator,
+   CRLF, ';' and left padding *)
+Open Scope N_scope.
+Definition ex_doc : doc :=
+  FCons (Field Unq [97] (Some Equal)
+           (VObject (FCons (Field Unq [98] (Some Equal) (VScalar Quo [120;32;121]))
+                    (FCons (Field Quo [99] (Some LessThan) (VScalar Unq [49])) FNil)) VNil))
+ (FCons (Field Unq [108] None
+           (VArray (VCons (VScalar Unq [49]) (VCons (VArray (VCons (VScalar Unq [51]) VNil)) (VCons (VArray VNil) VNil)))))
+ (FCons (Field Unq [104] (Some Equal) (VHeader [114;103;98] (VArray (VCons (VScalar Unq [49]) VNil)))) FNil)).
+Definition ex_layout (b : bool) : layout :=
+  mkLayout b (fun i => nth i [[32]; []; [35;99;10]; []; []; []; [32]; []; []; []; [13;10]; []; []; []; []; []; []; []; [];
+                              [59;32]; []; []; []; []; []; [10]] []).
+Open Scope nat_scope.
+
+Example C01_plain_nonvacuous : forall b,
+  plain_fields ex_doc = true /\ wf_doc ex_doc /\ wf_layout ex_doc (ex_layout b).
+Proof.
+  intros b. split; [reflexivity|]. split; [reflexivity|]. split; [|split].
+  - intros i. cbn [ex_layout gap].
+    do 26 (destruct i as [|i]; [apply gap_okb_sound; reflexivity|]). destruct i; constructor.
+  - cbn. repeat split; intros H; try discriminate H; try reflexivity; exact I.
+  - cbn [ex_layout bom]. intros ->. reflexivity.
+Qed.
+
+Example C01_plain_example_runs :
+  parse (render ex_doc (ex_layout true)) = Ok (flatten ex_doc, true).
+Proof. vm_compute. reflexivity. Qed.
